@@ -6,7 +6,7 @@ TECH = "contract-based deductive verification: VCs generated from the real funct
 CLAIMS = {
  "C01": ("Contracts on the real combo_runner, parse_combos, check_for_duplicates, combo_runner_core (grid case, cut into five regions), _run_linear_sequential, _run_linear_executor, _submit, _get_result and _unflatten are discharged for all grids: the ghost call log is extended by exactly one call per grid point with kwargs = zip(names, point) + constants (nothing else), in grid order or in the order PermOf(seed, n) when shuffled; results are fetched by submission index for every executor convention (Pool.apply_async(fn, args, kwds) / submit(fn, *a, **k) / view.apply_async(fn, *a, **k)), so completion order does not occur in the contract; the flat result is in grid order and the nested result satisfies Rep: position (i1..iK) holds the value returned for (values1[i1]..valuesK[iK]); split is per component; duplicate values raise.",
          "assumed: itertools.product (each tuple once, prefix-closed), random.seed/shuffle = a permutation determined by (seed, n), sorted+lemma SortedPermOfRange, executor/future contract (each submitted task invokes fn exactly once; result()/get() return that invocation's value), tuple/dict theory axioms, parallel=... 'ray' executor outside the subset; the cases branch of the core is C02's variant; fn is an arbitrary callable (may raise)"),
- "C02": ("Discharged for all inputs: parse_cases / parse_fn_args / case_runner normalise dict, tuple and scalar-per-case spellings to the same tuple of dicts and forward them unchanged to the core; an argument appearing in both cases and combos raises ValueError if and only if the name sets overlap, before the call log changes (nothing runs); _unflatten fills every grid position whose key is absent from the computed results with the placeholder (Rep with default all_nan); nan_like_result gives None for bool/str, full_like(nan) for dict/Dataset/DataArray, a tuple of nan arrays shaped by infer_shape per element for sequences and nan otherwise. BOUNDED (not proved): the enumeration cases x sub-grid, the per-argument unions and the placeholder shape recursion of infer_shape are exercised by replay/C02.py on the real code (random distinct case sets over 1-3 arguments, 5 result kinds, shuffle on/off; nested shapes to depth 3 / width 3) as part of the quick check.",
+ "C02": ("Discharged for all inputs: parse_cases / parse_fn_args / case_runner normalise dict, tuple and scalar-per-case spellings to the same tuple of dicts and forward them unchanged to the core; an argument appearing in both cases and combos raises ValueError if and only if the name sets overlap, before the call log changes (nothing runs); _unflatten fills every grid position whose key is absent from the computed results with the placeholder (Rep with default all_nan); nan_like_result gives None for bool/str, full_like(nan) for dict/Dataset/DataArray, a tuple of nan arrays shaped by infer_shape per element for sequences and nan otherwise; for a pure case list in flat form (variant combo_runner_core@cases, loop invariants and cuts) there is exactly one call per case, with the case's own values looked up by name whatever order each dict lists its keys in, and the results are in case order for every shuffle seed. BOUNDED (not proved): the enumeration cases x sub-grid, the per-argument unions and the placeholder shape recursion of infer_shape are exercised by replay/C02.py on the real code (random distinct case sets over 1-3 arguments, 5 result kinds, shuffle on/off; nested shapes to depth 3 / width 3) as part of the quick check.",
          "assumed: isiterable model, xarray.full_like / numpy.broadcast_to as uninterpreted functions (broadcast_to assumed not to raise), dict-comprehension keys distinct; the cases branch of combo_runner_core has no loop invariants yet, so its calls/slots/unions claim is bounded only and is not counted in discharged"),
  "C03": ("Discharged on the real bodies of results_to_df, results_to_ds, combo_runner_to_ds (general and grid variants), case_runner_to_ds, Runner.run_combos/run_cases, parse_var_names, parse_var_dims (key set and defaults): every DataFrame row i is, key by key, setting i minus resources plus attrs plus the outputs of result i (a single output name stores the result itself), and with the core runner's contract (C01) setting i is exactly the kwargs of the call that returned result i, for every shuffle seed; in the Dataset (over an abstract model of xarray.Dataset holding coords/data_vars/attrs maps) every output variable has dims = swept argument names in order + its declared internal dims and data = asarray of its result component, every swept argument is a coordinate holding the swept values, each constant is a coordinate if it names a dimension of some variable and an attribute otherwise, extra attrs are kept, nothing else is recorded and resources never reach the builders; the wrappers forward the stored description unchanged and merge per-run constants over stored ones. BOUNDED: replay/C03.py (quick tier) checks ds.sel at every grid point and every DataFrame row on random grids, 1-2 outputs, internal dims, shuffle, via Runner.",
          "assumed: xarray.Dataset(coords, data_vars) holds those maps and its dims are the dims of its variables, numpy.asarray/pandas.DataFrame as uninterpreted functions (that ds.sel returns the cell, i.e. numpy's nesting order = Rep order, is exercised only by the bounded replay), labelled outputs with var_names=None (xr.concat) assumed, case-sweep coordinates (sorted unions) bounded only, grouped-key spellings of var_dims bounded only; row dicts are mutated in place (aliasing with info['settings'], consumed afterwards)"),
